@@ -77,13 +77,7 @@ def run(ctx, chk):
                        loc=fn.loc(first.iid), path=None if ok else p, key="R13.1 %s unnormalised-overlap" % name)
     chk.floor("R13.1", "paths writing the output of the secretbox detached functions", n, 16)
 
-    sg = prog.need("crypto_sign_ed25519", rule="R13.1")
-    for p in cm.paths(prog, sg):
-        wr = [e for e in p.events if e.kind in ("store", "call") and cm.writes_through(prog, p, e, ("arg", 0))]
-        ok = bool(wr) and wr[0].kind == "call" and wr[0].callee_name() == "memmove" and \
-            wr[0].args[0] == ("gep", ("arg", 0), prog.K("crypto_sign_ed25519_BYTES"), ()) and wr[0].args[1] == ("arg", 2) and wr[0].args[2] == ("arg", 3)
-        chk.ob("R13.1", sg, "the message is moved to sm + 64 with memmove before anything else is written to sm", ok,
-               loc=sg.loc(wr[0].iid) if wr else sg.loc(), path=None if ok else p, key="R13.1 crypto_sign_ed25519 move-first")
+    sign_move_rule(prog, chk, "R13.1")
     so = prog.need("crypto_sign_ed25519_open", rule="R13.1")
     k = 0
     for p in cm.paths(prog, so):
@@ -108,6 +102,23 @@ def run(ctx, chk):
             chk.ob("R13.1-deleg", fn, "output is written only by the overlap-normalising %s" % callee, ok,
                    loc=fn.loc(wr[0].iid) if wr else fn.loc(), path=None if ok else p, key="R13.1-deleg %s" % name)
     hazard_rule(ctx, prog, chk)
+
+
+def sign_move_rule(prog, chk, rule):
+    """combined-mode signing copies the message to sm + 64 (memmove) before anything else is written to sm, so that the detached signer
+    reads a message no later write can disturb (shared by C13 R13.1 and C06 R6.4)"""
+    sg = prog.need("crypto_sign_ed25519", rule=rule)
+    for p in cm.paths(prog, sg):
+        wr = [e for e in p.events if e.kind in ("store", "call") and cm.writes_through(prog, p, e, ("arg", 0))]
+        ok = bool(wr) and wr[0].kind == "call" and wr[0].callee_name() == "memmove" and \
+            wr[0].args[0] == ("gep", ("arg", 0), prog.K("crypto_sign_ed25519_BYTES"), ()) and wr[0].args[1] == ("arg", 2) and wr[0].args[2] == ("arg", 3)
+        chk.ob(rule, sg, "the message is moved to sm + 64 with memmove before anything else is written to sm", ok,
+               loc=sg.loc(wr[0].iid) if wr else sg.loc(), path=None if ok else p, key="%s crypto_sign_ed25519 move-first" % rule)
+        if ok:
+            det = [e for e in p.calls("crypto_sign_ed25519_detached")]
+            ok2 = bool(det) and det[0].args[2] == wr[0].args[0] and det[0].args[0] == ("arg", 0)
+            chk.ob(rule, sg, "the detached signer signs the moved copy (sm + 64), writing the signature to sm", ok2,
+                   loc=sg.loc(det[0].iid) if det else sg.loc(), path=None if ok2 else p, key="%s crypto_sign_ed25519 signs-copy" % rule)
 
 
 # (function, unit substring, name of the output pointer parameter, name of the input pointer parameter)
